@@ -98,7 +98,7 @@ cc_arm!(c18_ctx_method, oracle_only_d_completion, {
     reach!("c18.ctx_method.end");
     std::mem::forget(r); std::mem::forget(want);
 });
-/// @harness id=c18_ctx_typing props=C18 unwind=18 mem=12 cap=1800 gates=oracle unwindset=find_inner:3;memchr_seq:400;rec~ParseErrorType:3;rec~LexicalErrorType:3;rec~FStringErrorType:3;rec~drop_glue::<std::io::Error:3;memchr_bytewise:64;sip:48;next_match:40
+/// @harness id=c18_ctx_typing props=ATTEMPT tier=thorough unwind=18 mem=12 cap=1800 gates=oracle unwindset=find_inner:3;memchr_seq:400;rec~ParseErrorType:3;rec~LexicalErrorType:3;rec~FStringErrorType:3;rec~drop_glue::<std::io::Error:3;memchr_bytewise:64;sip:48;next_match:40
 /// incomplete documents (the parser fails, text fallback): `def test_x(` => signature of test_x; a fixture being
 /// typed `def fy(a,` => signature with declared a; `@pytest.mark.usefixtures(` => usefixtures; `def helper(` => nothing.
 cc_arm!(c18_ctx_typing, oracle_only_d_typing_open, {
